@@ -139,7 +139,7 @@ Print Assumptions C14_partial_coarse_fragment.
 From CGV Require Import Reader.ReaderImpl Reader.Grammar Reader.Lin Reader.ReaderCheck
      Resolve.GraphOps Resolve.Pipeline Resolve.CopyProofs
      Frag.NDict Frag.StripImpl Frag.FragText Hydro.Hydrogens Hydro.Fragments
-     Hydro.SquashDefs Hydro.HydroDefs Resolve.PipelineFull Compose.CutModel Compose.CutHydrogens Reader.ReaderUnit Frag.SmilesParse Frag.SmilesSpec Frag.Template Frag.TemplateProofs Dialect.ReturnedAnnot Dialect.ReturnedCar Dialect.ReturnedExample Dialect.TextAnnot Dialect.BaseAnnotUnits Dialect.MachineAnnot Dialect.BaseAnnot Dialect.FragAnnot Dialect.CopyAnnot Dialect.TemplateAnnot.
+     Hydro.SquashDefs Hydro.HydroDefs Resolve.PipelineFull Compose.CutModel Compose.CutHydrogens Reader.ReaderUnit Frag.SmilesParse Frag.SmilesSpec Frag.Template Frag.TemplateProofs Dialect.ReturnedAnnot Dialect.ReturnedCar Dialect.ReturnedExample Dialect.ReturnedCoarse Dialect.TextAnnot Dialect.BaseAnnotUnits Dialect.MachineAnnot Dialect.BaseAnnot Dialect.FragAnnot Dialect.CopyAnnot Dialect.TemplateAnnot.
 Open Scope Z_scope.
 
 (** ---- base graph ---- *)
@@ -412,6 +412,31 @@ Theorem C14_disconnected_copy_exact : forall C, wf_cut C -> forall fd, templates
   has_node m1 (phi C x) = true /\ node_get m1 (phi C x) key = aget key (na n).
 Proof. exact disconnected_copy_exact. Qed.
 
+(** a COARSE resolution step (last_all_atom = False, or any level but the last): the fragment "atoms" are coarse nodes, the
+    step has no hydrogen completion, E/Z annotation or atom names; squashing is the identity on the bonded graph (Compose's
+    [squash_identity_any]) and sorting renumbers (Resolve's [sort_graph]).  Every copy of template node i in the RETURNED graph
+    has exactly the template node's value under every carried key (all but fragid / mapping / ez_isomer_atoms / hcount):
+    present with that value when the node has it, absent when it does not *)
+Theorem C14_annotation_reaches_returned_coarse_graph : forall C, wf_cut C -> forall fd, templates_ok C fd -> wf_dict fd ->
+  forall B, is_base C B -> forall prev car fo,
+  meta_of prev = B -> resolve_step_full true false fd prev car = Ok fo ->
+  exists m, sort_mapping (fo_m3 fo) = Ok m /\ SortGraphProofs.inj_on (map_get m) (node_keys (fo_m3 fo)) /\
+    forall p name xs T i x n key,
+      nth_error (c_parts C) p = Some (name, xs) -> fd_get name fd = Some T ->
+      nth_error xs i = Some x -> gfind (Z.of_nat i) T = Some n -> carried_key key ->
+      node_get (fo_mol fo) (map_get m (phi C x)) key = aget key (na n).
+Proof. exact annotation_reaches_returned_graph_coarse. Qed.
+
+Example C14_returned_coarse_nonvacuous :
+  match resolve_step_full true false exA_fd (base_of exA) None with
+  | Ok fo => node_keys (fo_mol fo) = [0; 1; 2; 3] /\
+      map (fun k => (node_get (fo_mol fo) k (S "weight"), node_get (fo_mol fo) k (S "chiral"), node_get (fo_mol fo) k (S "k"))) [0; 1; 2; 3]
+      = [(Some (VInt 1), None, None); (Some (VFlt (S "0.5")), Some (VStr (S "R")), Some (VStr (S "v")));
+         (Some (VInt 1), None, None); (Some (VFlt (S "0.5")), Some (VStr (S "R")), Some (VStr (S "v")))]
+  | Err _ => False
+  end.
+Proof. exact returned_coarse_example. Qed.
+
 (** non-vacuity *)
 Example C14_base_annotation_nonvacuous :
   let fo := fo_of_table [(S "1", Some (S "1.0")); (S "2", Some (S "2.0"))] in
@@ -434,6 +459,8 @@ Print Assumptions C14_hydrogens_do_not_overwrite.
 Print Assumptions C14_annotation_reaches_returned_graph.
 Print Assumptions C14_annotation_reaches_returned_graph_full.
 Print Assumptions C14_disconnected_copy_exact.
+Print Assumptions C14_annotation_reaches_returned_coarse_graph.
+Print Assumptions C14_returned_coarse_nonvacuous.
 Print Assumptions C14_text_annotation_reaches_returned_graph.
 Print Assumptions C14_text_annotation_not_gained.
 Print Assumptions C14_template_exact.
